@@ -157,6 +157,17 @@ def variants(rng, n):
     out.append(("compile-error-duplicate", {"justfile": "a:\n  x\nb:\n  y\na:\n  z\nb:\n  w\n"}))
     out.append(("compile-error-undefined", {"justfile": "x := b + a + c\n"}))
     out.append(("compile-error-cycle", {"justfile": "c := a\na := b\nb := c\n"}))
+    # several errors of one kind in one file: which one is reported must not depend on the run
+    names = ["zeta", "alpha", "mid", "omega", "beta", "kappa", "delta"]
+    out.append(("compile-error-alias-targets", {"justfile": "".join("alias %s := no_%s\n" % (n, n) for n in names) + "r:\n  [T]\n"}))
+    out.append(("compile-error-unknown-dependencies", {"justfile": "".join("%s: no_%s\n  [T]\n" % (n, n) for n in names)}))
+    out.append(("compile-error-undefined-in-recipes", {"justfile": "".join("%s:\n  [T] {{ no_%s }}\n" % (n, n) for n in names)}))
+    out.append(("compile-error-undefined-in-assignments", {"justfile": "".join("%s := no_%s\n" % (n, n) for n in names)}))
+    out.append(("compile-error-recipe-cycles", {"justfile": "".join("%s: %s\n  [T]\n" % (n, n) for n in names)}))
+    out.append(("compile-error-dependency-arity", {"justfile": "t a:\n  [T]\n" + "".join("%s: (t)\n  [T]\n" % n for n in names)}))
+    out.append(("compile-error-duplicate-kinds", {"justfile": "".join("alias %s := r\n%s:\n  [T]\n" % (n, n) for n in names) + "r:\n  [T]\n"}))
+    out.append(("compile-error-unexport-export", {"justfile": "".join("unexport %s\nexport %s := 'x'\n" % (n.upper(), n.upper()) for n in names)}))
+    out.append(("compile-error-modules-missing", {"justfile": "".join("mod %s\n" % n for n in names)}))
     return out
 
 
